@@ -41,7 +41,7 @@ CLAIMED = {
 
 NA = {
  "C05": "Differential property over evaluated values (associativity, precedence, computed integers); its one structural clause (Evaluate routes interpreter errors through FileSet.ErrorWithPosition) is matched string-for-string by the existing unit tests, so a static rule adds nothing. See DESIGN.md §5.",
- "C11": "Every realistic break is an off-by-one in arithmetic on run-time contents (sort.Search predicates, +1 gaps, >= vs >); a static rule could only freeze today's operators — a brittle proxy. Needs value reasoning (proof/solver: other families). See DESIGN.md §5.",
+ "C11": "The property is a bijection between integers and (file, line, column) over run-time contents. Its structural clauses (the +1 gap between files in FileSet.AddFile, the unknown-iff-out-of-range guards of FileSet.Position and File.Position, the 1-based Line/Column forms, the two sort.Search predicates, the CRLF replacement count) could be decided as linear normal forms, but each is pinned by the existing unit tests: ten single-operator mutations of them were tried and every one fails the suite, so a static rule there decides nothing the tests leave open. What the tests do leave open — that the binary searches land on the right table entry for every content — needs reasoning about sorted array contents (proof/solver families). The one clause of this kind that tests do not pin, completeness of the line table, is decided under C06 (R06d). See DESIGN.md §5 and §10.11.",
  "C17": "Quantifies over call counts as a function of input length; no static argument in reach bounds them, and context pruning is not a demonstrable necessary condition of degree <= 4. Determinism clause is decided under C03 (R03e). See DESIGN.md §5.",
 }
 PENDING = "check not built yet in this round (planned, see DESIGN.md §9); not claimed until its command exists"
